@@ -17,7 +17,9 @@
 (*  Deliver  {dir, off, len, eq}       the bridge wrote len bytes to the receiving end of dir;    *)
 (*                                     off = the receiver's count so far, eq = they equal the     *)
 (*                                     sender's stream at [off, off+len)                          *)
-(*  Env      {a, clean, k}             arm | glitch | replace | closeold (script bookkeeping);     *)
+(*  Env      {a, clean, k}             arm | glitch | stall | unstall | routefail | replace |      *)
+(*                                     closeold (script bookkeeping; stall = the end stops        *)
+(*                                     draining, routefail = the routing store fails deletes);    *)
 (*                                     replace carries clean (see TrEnv); glitch carries k: t0 =  *)
 (*                                     a Read returns (0, timeout), tn = (n > 0, timeout)         *)
 (*  CloseEnd {e, kind, w}              close: end e closed its connection; error: it failed;      *)
@@ -63,6 +65,7 @@ Init == /\ l = 1 /\ viol = {} /\ cfg = Nil /\ sent = Zero /\ delivered = Zero /\
         /\ ended = "none" /\ ender = "-" /\ tail = FALSE /\ stale = FALSE /\ void = {} /\ fault = ""
 
 Add(c, d) == viol' = viol \cup {V(c, d)}
+Also(x) == IF fault = "" THEN x ELSE fault \o "," \o x      \* injected faults accumulate in script order
 Ctx == "lim=" \o cfg.lim \o (IF fault = "" THEN "" ELSE ":" \o fault)
 \* violations that can only be told apart from others by the replaced, still open source connection
 \* carry that fact in front (so that one known-finding key can name them)
@@ -100,8 +103,10 @@ TrEnv == /\ Is("Env") /\ l' = l + 1
          /\ stale' = (IF Ev.a = "replace" THEN TRUE ELSE IF Ev.a = "closeold" THEN FALSE ELSE stale)
          /\ void' = (IF Ev.a = "replace" /\ ~Ev.clean THEN void \cup {"s2t"} ELSE void)
          /\ tail' = (tail /\ Ev.a # "replace")
-         /\ fault' = (IF Ev.a = "glitch" THEN (IF Ev.k = "tn" THEN "read=data+timeout" ELSE "read=timeout")
-                      ELSE IF Ev.a = "arm" THEN "write=short" ELSE fault)
+         /\ fault' = (IF Ev.a = "glitch" THEN Also(IF Ev.k = "tn" THEN "read=data+timeout" ELSE "read=timeout")
+                      ELSE IF Ev.a = "arm" THEN Also("write=short")
+                      ELSE IF Ev.a = "stall" THEN Also("write=stalled")
+                      ELSE IF Ev.a = "routefail" THEN Also("route=delete-fails") ELSE fault)
          /\ UNCHANGED <<viol, cfg, sent, delivered, attached, ended, ender>>
 
 TrCloseEnd ==
@@ -112,7 +117,7 @@ TrCloseEnd ==
           /\ tail' = (Ev.kind = "close" /\ ~stale /\ delivered[OutOf(Other(Ev.e))] = sent[OutOf(Other(Ev.e))])
      ELSE /\ ended' = ended /\ ender' = ender
           /\ tail' = FALSE                       \* a second end closed or failed
-  /\ fault' = (IF Has("w") /\ Ev.w = "data" THEN (IF Ev.kind = "close" THEN "read=data+eof" ELSE "read=data+error") ELSE fault)
+  /\ fault' = (IF Has("w") /\ Ev.w = "data" THEN Also(IF Ev.kind = "close" THEN "read=data+eof" ELSE "read=data+error") ELSE fault)
   /\ UNCHANGED <<viol, cfg, sent, delivered, attached, stale, void>>
 
 \* clause (a); the judge recounts, it does not rely on the driver's flag
